@@ -738,6 +738,56 @@ def deep_chain_dataset(rng, depth=None):
     D.meta = dict(singletons=0, undeclared_species=0, int_ids=False, deep_chain=d)
     return D
 
+def chain_above_dup_dataset(rng, depth=None):
+    """single-child levels ABOVE a duplication: caterpillar tree, one family at the root that survives in the inner clade
+    only for several levels, then a HOG whose only content is one duplication (2-3 copies, all in the inner child clade).
+    Exercises the exporter's elision rules where a group written around a single child holds a sole-duplication HOG."""
+    d = depth or rng.randint(3, 6)
+    T = ('I0', (('LA', ()), ('LB', ())))
+    for k in range(1, d + 1):
+        T = ('I%d' % k, (T, ('L%d' % k, ())))
+    ids = Ids(False)
+    def full(k):
+        if k == 0:
+            return ('grp', True, ids.hog() if rng.random() < 0.7 else None, rng.random() < 0.5,
+                    [('one', 0, ('g', ids.gene(rng), None)), ('one', 1, ('g', ids.gene(rng), None))])
+        subs = [('one', 0, full(k - 1))]
+        if rng.random() < 0.6:
+            subs.append(('one', 1, ('g', ids.gene(rng), None)))
+        return ('grp', True, ids.hog() if rng.random() < 0.7 else None, rng.random() < 0.5, subs)
+    def chain_to(top_level):
+        # single-child levels from `top_level` down to a HOG whose only content is one duplication
+        j = rng.randint(1, max(1, top_level - 1))      # level of the sole-duplication HOG
+        l_ = ('grp', True, ids.hog() if rng.random() < 0.7 else None, rng.random() < 0.5,
+              [('dup', 0, None, [full(j - 1) for _ in range(rng.choice([2, 2, 3]))])])
+        for k in range(j + 1, top_level + 1):
+            subs = [('one', 0, l_)]
+            if k < top_level and rng.random() < 0.15:
+                subs.append(('one', 1, ('g', ids.gene(rng), None)))
+            l_ = ('grp', True, ids.hog() if rng.random() < 0.7 else None, rng.random() < 0.5, subs)
+        return l_
+    if rng.random() < 0.5:
+        l = chain_to(d)                                # the family itself is such a chain
+    else:
+        # ... or the chains are the copies of an older duplication at the root (a copy that is a single-child HOG is
+        # written inside its paralogGroup, and so must be the sole-duplication HOG below it)
+        subs = [('dup', 0, None, [chain_to(d - 1) for _ in range(2)])]
+        if rng.random() < 0.5:
+            subs.append(('one', 1, ('g', ids.gene(rng), None)))
+        l = ('grp', True, '1', rng.random() < 0.5, subs)
+    l = ('grp', True, '1') + tuple(l[3:])
+    D = Dataset(T, rng.choice(['own', 'synth']))
+    D.families = [((), l, '1')]
+    per_leaf = {}
+    for g, t in gene_taxa((), l):
+        per_leaf.setdefault(t, []).append(g)
+    for t in [p for p in paths(T) if not sub(T, p)[1]]:
+        D.species.append((sub(T, t)[0], [(g, rand_xrefs(rng, g)) for g in per_leaf.get(t, [])]))
+    D.groups = encode(T, D.naming, (), l)
+    D.base_groups = list(D.groups)
+    D.meta = dict(singletons=0, undeclared_species=0, int_ids=False, chain_above_dup=d)
+    return D
+
 def wild_dataset(rng, maxleaves=7):
     """a file that is NOT the encoding of a history: groups built clade by clade but with members, sub-groups and
     paralogGroups taken from anywhere below the clade (several levels skipped, several paralogGroups at one elided
